@@ -150,6 +150,10 @@ func negotiateFeatures(ctx context.Context, s *Session, first, ws bool, features
 		// secure connection, try it anyways to prevent downgrade attacks per RFC
 		// 7590.
 		doStartTLS = first && !advertisedStartTLS && s.State()&Secure != Secure && doStartTLS
+		// Even when forced, StartTLS is only attempted while its own prerequisites
+		// hold in the current session state.
+		doStartTLS = doStartTLS && s.state&startTLS.Necessary == startTLS.Necessary &&
+			s.state&startTLS.Prohibited == 0
 
 		switch {
 		case doStartTLS:
